@@ -360,7 +360,7 @@ def run_gram(cell, seed, fails, feats):
 # model covariances
 
 EXACT_FAMS = ["exact", "matern_ard", "sumprod", "fixednoise", "multitask", "kiss", "sgpr", "rff"]
-VAR_FAMS = ["svgp", "usvgp", "svgp_mf", "svgp_nat", "lmc"]
+VAR_FAMS = ["svgp", "usvgp", "svgp_mf", "svgp_nat", "lmc", "indep_mt"]
 TEST_GEOMS = ["generic", "dup", "attrain", "cluster1e-6"]
 
 
@@ -499,6 +499,15 @@ def run_model(cell, seed, fails, feats):
                 ops += 1
                 check_cov(fails, "marginal", Cm, tol, scale=prior_scale, detail="likelihood(model(Xs)).covariance_matrix")
             variance_checks(fails, "posterior", post)
+        if fam in ("lmc", "indep_mt"):
+            # the Hadamard call mode of the multitask wrappers (one task index per input) hands out a covariance as well
+            with fails.guard("posterior-task-indices"):
+                ti = torch.arange(Xs.shape[-2]) % 2
+                pt = m(Xs, task_indices=ti)
+                ops += 1
+                check_cov(fails, "posterior-task-indices", pt.covariance_matrix, tol, scale=prior_scale,
+                          detail=f"q(f) covariance with task_indices={ti.tolist()} at Xs = {Xs.tolist()}")
+                variance_checks(fails, "posterior-task-indices", pt)
         if fam in VAR_FAMS:
             with fails.guard("q(f)-train"):
                 m.train()
